@@ -75,6 +75,18 @@ def pass_family_stream(rng, n=None):
             yield ("generator-error", f"{type(e).__name__}: {e}")
 
 
+def fold_family_stream(rng):
+    """the pass-family models aimed at the FOLDER's partial evaluators (Dropout with a training_mode / ratio that is only known at run
+    time): fed to the decision-trace correspondence, so that the evaluator's decision constant-False / unknown / True is compared with
+    Opt/Fold.v pe_dropout on every run"""
+    for i, v in enumerate(x for x in G.PASS_VARIANTS if x.startswith("dropout-")):
+        for j in range(2):
+            try:
+                yield G.gen_pass_case(rng, i * 2 + j, v)
+            except Exception as e:
+                yield ("generator-error", f"{type(e).__name__}: {e}")
+
+
 def corpus_stream(rng, pid):
     """Minimised past failures (corpus/<pid>/*.onnx), run before the fresh cases.  Feeds are derived from the declared
     input types; initializers that are graph inputs are the overridable ones."""
